@@ -273,11 +273,11 @@ theorem run_tail (s : Str) (hn : noNL s = true) :
           simp only [noNL, List.all_cons, Bool.and_eq_true] at hr ⊢; exact hr.2
         have hdt : Cls.digit.test = isDigit := by funext c; rfl
         rw [rep_nobacktrack run_func_digit ds, hdt, run_func _ (noNL_dropWhile _ ds hds)]
-        simp only [Cls.test, hdig, if_true, List.takeWhile_cons, List.dropWhile_cons]
+        simp only [hdig, if_true, List.takeWhile_cons, List.dropWhile_cons]
         cases dropPrefix? litC (List.dropWhile isDigit ds) with
         | none => simp
         | some fn => by_cases hfn : fn = [] <;> simp [hfn]
-      · simp [Cls.test, hdig, List.takeWhile_cons]
+      · simp [Cls.test, hdig]
 
 /-- `", line (\d+)` (no end anchor) is `tailMatchSE` -/
 theorem run_tailSE (s : Str) :
@@ -294,8 +294,8 @@ theorem run_tailSE (s : Str) :
       have : run [] = fun _ => some [] := by funext s; simp [run_nil]
       have hdt : Cls.digit.test = isDigit := by funext c; rfl
       by_cases hdig : isDigit d = true
-      · simp [hdt, hdig, this, rep_const, List.takeWhile_cons]
-      · simp [hdt, hdig, List.takeWhile_cons]
+      · simp [hdt, hdig, this, rep_const]
+      · simp [hdt, hdig]
 
 /-! ## the hand scanners are the generic matcher on the source's patterns -/
 
